@@ -247,10 +247,22 @@ impl GenerateConfig {
             tauri_obj.insert("plugins".to_string(), serde_json::json!({}));
         }
 
-        // Insert typegen configuration into plugins
+        // Insert typegen configuration into plugins. Settings of an existing section that this
+        // configuration does not carry (typeMappings, patterns) stay as they are
         if let Some(plugins) = tauri_obj.get_mut("plugins") {
             if let Some(plugins_obj) = plugins.as_object_mut() {
-                plugins_obj.insert("typegen".to_string(), typegen_config);
+                let mut merged = match plugins_obj.get("typegen").and_then(|v| v.as_object()) {
+                    Some(existing) => existing.clone(),
+                    None => serde_json::Map::new(),
+                };
+                if let Some(updates) = typegen_config.as_object() {
+                    for (key, value) in updates {
+                        if !value.is_null() || !merged.contains_key(key) {
+                            merged.insert(key.clone(), value.clone());
+                        }
+                    }
+                }
+                plugins_obj.insert("typegen".to_string(), serde_json::Value::Object(merged));
             }
         }
 
